@@ -106,6 +106,10 @@ pub enum Op {
     NewHeap(u8, u8),
     /// Name::new_static / name! into slot
     NewStatic(u8, u8),
+    /// constructors that must fail (invalid GraphQL names): nothing may be allocated for good
+    NewInvalid(u8),
+    /// `TryFrom<String>` / `TryFrom<&String>` / `TryFrom<&str>` / `new_unchecked` into slot
+    FromString(u8, u8, u8),
     /// Name::from_arc_unchecked / TryFrom<Arc<str>> from the witness Arc of a text
     FromArc(u8, u8, bool),
     CloneName(u8, u8),
@@ -153,6 +157,8 @@ impl Op {
         match self {
             Op::NewHeap(a, b) => format!("nh {a} {b}"),
             Op::NewStatic(a, b) => format!("ns {a} {b}"),
+            Op::NewInvalid(a) => format!("ni {a}"),
+            Op::FromString(a, b, c) => format!("fs {a} {b} {c}"),
             Op::FromArc(a, b, c) => format!("fa {a} {b} {}", *c as u8),
             Op::CloneName(a, b) => format!("cn {a} {b}"),
             Op::CloneFrom(a, b) => format!("cf {a} {b}"),
@@ -196,6 +202,8 @@ impl Op {
         Some(match *p.first()? {
             "nh" => Op::NewHeap(u8_(1)?, u8_(2)?),
             "ns" => Op::NewStatic(u8_(1)?, u8_(2)?),
+            "ni" => Op::NewInvalid(u8_(1)?),
+            "fs" => Op::FromString(u8_(1)?, u8_(2)?, u8_(3)?),
             "fa" => Op::FromArc(u8_(1)?, u8_(2)?, u8_(3)? != 0),
             "cn" => Op::CloneName(u8_(1)?, u8_(2)?),
             "cf" => Op::CloneFrom(u8_(1)?, u8_(2)?),
@@ -249,7 +257,14 @@ pub fn gen_op(rng: &mut Rng, allow_clone_panic: bool) -> Op {
     }
     match rng.below(40) {
         0..=2 => Op::NewHeap(n(rng), t(rng)),
-        3..=4 => Op::NewStatic(n(rng), t(rng)),
+        3 => Op::NewStatic(n(rng), t(rng)),
+        4 => {
+            if rng.chance(1, 3) {
+                Op::NewInvalid(rng.below(6) as u8)
+            } else {
+                Op::FromString(n(rng), t(rng), rng.below(4) as u8)
+            }
+        }
         5..=7 => Op::FromArc(n(rng), t(rng), rng.chance(1, 2)),
         8..=10 => Op::CloneName(n(rng), n(rng)),
         11 => Op::CloneFrom(n(rng), n(rng)),
@@ -482,6 +497,45 @@ impl Pool {
                     loc: None,
                 });
                 self.count("op.new_static");
+            }
+            Op::NewInvalid(k) => {
+                let bad = ["", "1abc", "a-b", "é", "a b", "a.b"][k as usize % 6];
+                let results = [
+                    Name::new(bad).is_err(),
+                    Name::new_static(bad).is_err(),
+                    Name::try_from(bad).is_err(),
+                    Name::try_from(bad.to_string()).is_err(),
+                    Name::try_from(Arc::<str>::from(bad)).is_err(),
+                    serde_json::from_str::<Name>(&format!("{bad:?}")).is_err(),
+                    !Name::is_valid_syntax(bad),
+                ];
+                if results.iter().any(|ok| !ok) {
+                    return Err(problem("api", format!("invalid name {bad:?} accepted: {results:?}")));
+                }
+                self.count("op.new_invalid");
+            }
+            Op::FromString(s, t, how) => {
+                let s = s as usize;
+                self.forget_name(s);
+                let text = TEXTS[t as usize];
+                let name = match how % 4 {
+                    0 => Name::try_from(text.to_string()),
+                    1 => Name::try_from(&text.to_string()),
+                    2 => Name::try_from(text),
+                    _ => Ok(Name::new_unchecked(text)),
+                }
+                .map_err(|e| problem("api", e.to_string()))?;
+                self.names[s] = Some(name);
+                let g = self.next_group;
+                self.next_group += 1;
+                self.group_add(Some(g), t, 1);
+                self.m_names[s] = Some(MName {
+                    text: t,
+                    is_static: false,
+                    group: Some(g),
+                    loc: None,
+                });
+                self.count("op.from_string");
             }
             Op::FromArc(s, t, try_from) => {
                 let s = s as usize;
@@ -839,6 +893,13 @@ impl Pool {
                         || na.ptr_eq(nb) != (ma.0 == mb.0)
                     {
                         return Err(problem("node_eq_hash_ptr_eq", format!("Node<str> {:?} vs {:?}", lossy(na.as_str()), lossy(nb.as_str()))));
+                    }
+                    // conversions to and from String keep the text
+                    let owned: String = String::from(na);
+                    let back: Node<str> = Node::from(owned.clone());
+                    let back2: Node<str> = Node::from(&owned);
+                    if owned != TEXTS[ma.1 as usize] || back != *na || back2.as_str() != owned || back.location().is_some() {
+                        return Err(problem("node_value", format!("Node<str> <-> String conversion of {:?}", lossy(na.as_str()))));
                     }
                 }
             }
